@@ -244,7 +244,7 @@ func Guard(o *Outcome, what string, f func()) (ok bool) {
 			stack := string(debug.Stack())
 			o.Violations = append(o.Violations, Violation{
 				Clause: "no-panic",
-				Detail: fmt.Sprintf("%s panicked: %v", what, r),
+				Detail: fmt.Sprintf("%s panicked: %v [%s]", what, r, frames(stack, 5)),
 				Sig:    "panic/" + PanicSite(stack) + "/" + panicClass(fmt.Sprint(r)),
 			})
 			ok = false
@@ -609,4 +609,22 @@ func dumpSample(s any) {
 		return
 	}
 	fmt.Printf("%s\n", b)
+}
+
+var frameLineRE = regexp.MustCompile(`(?m)^github\.com/openconfig/goyang[^\n]*\n\t([^\n]*)`)
+
+// frames returns the first n goyang frames of a traceback as "func at file:line".
+func frames(stack string, n int) string {
+	var out []string
+	for _, m := range frameLineRE.FindAllStringSubmatch(stack, n) {
+		fn := strings.SplitN(m[0], "(", 2)[0]
+		fn = fn[strings.LastIndex(fn, "/")+1:]
+		loc := strings.Fields(m[1])
+		where := ""
+		if len(loc) > 0 {
+			where = loc[0][strings.LastIndex(loc[0], "/")+1:]
+		}
+		out = append(out, fn+" at "+where)
+	}
+	return strings.Join(out, " < ")
 }
